@@ -391,11 +391,12 @@ theorem ipaddress_roundtrip (a : Str) (hne : a ≠ []) (hsp : ' ' ∉ a) :
 
 
 
-/-- Well-formed codec of a media section of kind `kind`: `mimeType = kind/name` without further "/",
-audio codecs have 1 or 2 channels, other kinds none (what the parser itself produces). -/
+/-- Well-formed codec of a media section of kind `kind`: `mimeType = kind/name`, `name` without "/" and equal to
+what `RTCRtpCodecParameters.name` returns (the second "/"-piece of `mimeType`; automatic when `kind` has no "/",
+see `codecName_of_noslash`), audio codecs have 1 or 2 channels, other kinds none (what the parser itself produces). -/
 structure WFCodec (kind name : Str) (c : Codec) : Prop where
   mime : c.mimeType = kind ++ '/' :: name
-  kind_slash : '/' ∉ kind
+  cname : codecName c = .ok name
   name_slash : '/' ∉ name
   chan : if kind = "audio".toList then (c.channels = some 1 ∨ c.channels = some 2) else c.channels = none
   fb : c.rtcpFeedback = []
@@ -403,7 +404,12 @@ structure WFCodec (kind name : Str) (c : Codec) : Prop where
 
 theorem codecStr_wf (kind name : Str) (c : Codec) (h : WFCodec kind name c) :
     codecStr c = .ok (name ++ '/' :: showInt c.clockRate ++ (if c.channels = some 2 then "/2".toList else [])) := by
-  simp [codecStr, codecName, h.mime, splitOn_append '/' kind name h.kind_slash, splitOn_single '/' name h.name_slash]
+  simp [codecStr, h.cname]
+
+/-- For a kind without "/", `RTCRtpCodecParameters.name` of `kind/name` is `name`. -/
+theorem codecName_of_noslash (kind name : Str) (c : Codec) (hm : c.mimeType = kind ++ '/' :: name)
+    (hk : '/' ∉ kind) (hn : '/' ∉ name) : codecName c = .ok name := by
+  simp [codecName, hm, splitOn_append '/' kind name hk, splitOn_single '/' name hn]
 
 theorem pyInt_two : pyInt ['2'] = some 2 := pyInt_showInt 2
 
